@@ -234,11 +234,11 @@ def run_asciimap(rep, tier, seed):
 # part 2: blueprint documents
 # ------------------------------------------------------------------------------------------------------------
 RTOL = 1e-9  # compositions and dimensions are a handful of double operations away from the input numbers
-FAMILIES = ("links", "comp", "stack", "pins", "core", "duct")
+FAMILIES = ("links", "comp", "stack", "pins", "core", "duct", "group")
 # every edit of Blueprint.tla must occur in the emitted documents (non-vacuity; TLC's -coverage is not usable on this
 # module: its cost model inlines the nested operators and does not finish)
 EDITS = ("SetLink", "SetNum", "AddBond", "DropComp", "SwapComps", "RenameComp", "SetShape", "SetTemps", "SetIsotopics", "SetMod", "ShortMod",
-         "DupIsotopics", "SetModPair", "LongMod", "SetXs", "DuctEdit", "PinCount", "SwapDucts", "DropDuct", "SwapBlocks", "SwapList", "Shorten", "Lengthen", "Respecify", "RenameAsm", "RenameBlock", "SetHeight",
+         "DupIsotopics", "SetBlend", "MemberMult", "GroupMult", "GroupName", "SetModPair", "LongMod", "SetXs", "DuctEdit", "PinCount", "SwapDucts", "DropDuct", "SwapBlocks", "SwapList", "Shorten", "Lengthen", "Respecify", "RenameAsm", "RenameBlock", "SetHeight",
          "PlaceStack", "PlacePin", "PinMode", "PinMult", "PinIds", "PinGridName", "Place", "Unplace", "DupGrid", "ListTwice")
 
 
@@ -250,6 +250,10 @@ def _ratmap(pairs):
 def normalise_expected_comp(c):
     """JSON shape only: TLC prints empty functions as [], rationals as [n, d], sets in its own order."""
     c = dict(c)
+    if c["shape"] == "Group":
+        c["nmembers"] = len(c["members"])
+        c["members"] = {m["name"]: normalise_expected_comp(dict(m, links=[], comp={})) for m in c["members"]}
+        return c
     c["dims"] = {k: float(v) for k, v in gb._obj(c["dims"]).items()}
     c["links"] = sorted([d, t[0], t[1]] for d, t in gb._obj(c["links"]).items())
     c["ti"], c["th"] = float(c["ti"]), float(c["th"])
@@ -260,6 +264,9 @@ def normalise_expected_comp(c):
         if k in ("nd", "md", "nf", "mf"):
             comp[k] = _ratmap(v)
             comp["nuclides"] = sorted(comp[k])
+        elif k == "hmf":
+            comp[k] = _ratmap(v)
+            comp["hmnuclides"] = sorted(comp[k])
         elif k in ("rho", "enr", "zr"):
             comp[k] = gb.fl(v)
     c["comp"] = comp
@@ -360,7 +367,8 @@ def _signature(p):
     list length): the composition family is sampled so that every combination that occurs is built"""
     doc = p["doc"]
     fuels = sorted({(c["mat"], c["iso"]) for b in doc["blocks"] for c in b["comps"] if c["name"] == "fuel"})
-    mods = sorted((m["scope"], m["key"], any(v and v[0] == 0 for v in m["vals"]), any(not v for v in m["vals"]), len(m["vals"]))
+    mods = sorted((m["scope"], m["key"], any(v and v[0] == 0 for v in m["vals"]), any(not v for v in m["vals"]), len(m["vals"]),
+                   sorted({str(v[0]) for v in m["vals"] if len(v) == 1}))
                   for a in doc["asms"] for m in a["mods"])
     return json.dumps([fuels, mods])
 
@@ -718,11 +726,14 @@ def selftest():
         fn = getattr(fn, "__func__", fn)
         src = textwrap.dedent(inspect.getsource(fn))
         assert src.count(old) == 1, "%s.%s changed: update the mutant" % (owner.__name__, name)
-        ns = dict(vars(sys.modules[owner.__module__]))
+        if isinstance(owner.__dict__[name], staticmethod):
+            raise AssertionError("static methods are not supported")
+        ns = dict(vars(owner if inspect.ismodule(owner) else sys.modules[owner.__module__]))
         exec(src.replace(old, new), ns)  # noqa: S102
         return P(owner, name, ns[name])
 
     from armi.reactor import blocks as blocksModule
+    from armi.utils import densityTools as densityToolsModule
 
     CB, AB, BB = componentBlueprint.ComponentBlueprint, assemblyBlueprint.AssemblyBlueprint, blockBlueprint.BlockBlueprint
     mutants = [
@@ -745,6 +756,16 @@ def selftest():
         ("round 2, seed 5: by-component lists filed under the component's name in the length check", lambda: source_mutant(
             AB, "_checkParamConsistency", 'paramName = f"material modifications for {modName}"',
             'paramName = f"material modifications for {id(comp)}"')),      # one entry per component: the last list wins
+        ("round 3, seed 1: class1/class2 blend loops over the nuclides of the two feeds only", lambda: source_mutant(
+            densityToolsModule, "applyIsotopicsMix",
+            """    for nucName in (
+        set(enrichedMassFracs.keys())
+        .union(set(fertileMassFracs.keys()))
+        .union(set(material.massFrac.keys()))
+    ):""", "    for nucName in set(enrichedMassFracs.keys()).union(set(fertileMassFracs.keys())):")),
+        ("round 3, seed 2: a group's mult only applied to members whose own mult is unset or 1", lambda: source_mutant(
+            CB, "construct", 'component.setDimension("mult", groupedComponent.mult)',
+            'component.setDimension("mult", groupedComponent.mult if component.getDimension("mult") in (None, 1.0) else component.getDimension("mult"))')),
         ("block heights applied in reversed order", lambda: P(AB, "_createBlock", create_block_heights_reversed)),
         ("xs type list shifted by one block", lambda: P(AB, "_createBlock", create_block_xs_shifted)),
         ("list-length consistency check disabled", lambda: P(AB, "_checkParamConsistency", param_consistency_off)),
